@@ -89,12 +89,13 @@ func genStream(prop string, seed uint64, index int, tier string) *SScenario {
 	r := newRng(seed)
 	sc := &SScenario{Engine: "stream", Prop: prop, Seed: seed, Index: index}
 	pr := r.fork(1)
-	sc.Pattern = pick(pr, corpus)
+	sc.Pattern = pickPattern(pr)
 	if pr.p(1, 4) {
 		sc.Pattern = mutatePattern(pr, sc.Pattern)
 	}
 	sc.Longest = pr.p(1, 8)
 	re := parsePattern(sc.Pattern)
+	genASCII = false
 	alpha := patternAlphabet(sc.Pattern)
 	hr := r.fork(3)
 	h := genHaystack(hr, sc.Pattern, re, alpha, pick(hr, []int{0, 1, 1, 2, 2, 3}))
